@@ -235,6 +235,35 @@ PROPS = {
                         "int16 identifiers: more than 32767 births are outside the claim", "sites tracked independently: apply_ufunc(vectorize) contract"],
         "technique": "contract-based symbolic execution of the real matching function (bounded shape, all values) + exhaustive/random run-time contract of the identifier bookkeeping",
     },
+    "C17": {
+        "level": "other",
+        "engines": [{"kind": "pyse", "include_props": ["C01"]}],
+        "explanation": "PROVED (frame obligation, all inputs and paths): every contract executed symbolically carries the obligation "
+        "'writes_only_fresh_buffers' - input arrays carry the ghost owner 'caller', views share it, copies and arithmetic results are fresh, "
+        "and an in-place write reaching a caller-owned buffer on any feasible path fails; this covers every accessor statistic of C01 and the "
+        "functions of the other contracts tagged C17. BOUNDED (run-time frame contracts, every run): deep snapshots (values bit for bit, "
+        "coordinates, attributes, encodings, dimension order, base buffer of views, argument lists / dicts / arrays) before and after 21 public "
+        "operations (stats, oned, to_energy, split, smooth, interp, rotate, scale_by_hs, ptm1/3/4/5, bbox, sel nearest/idw/bbox, to_swan, "
+        "to_octopus, to_json, to_funwave) on numpy-backed, dask-backed and view-of-caller-buffer datasets; converters (from_ww3, from_ncswan, "
+        "from_wwm, from_era5) and selection functions leave their inputs identical.",
+        "trusted_base": ["ghost ownership propagation through the library contracts in engine/pyse (copy(deep) fresh; rename/isel(slice)/values/assign_coords share; x *= c writes the shared buffer)"],
+        "assumptions": ["netCDF writers (to_netcdf, to_ww3) cannot run offline (netCDF4 missing): not covered", "sequences of operations limited to the ones listed"],
+        "technique": "ownership/frame obligations on every symbolically executed contract + run-time snapshot contracts (bounded)",
+    },
+    "C07": {
+        "level": "other",
+        "engines": [{"kind": "pyse"}, {"kind": "cvc", "select": [("specpart_wrap", "syntactic")]}],
+        "explanation": "PROVED (ghost chunk counts, all chunkings): for symbolic chunk counts >= 1 on every dimension the five xrstats wrappers "
+        "(tp, dp, dpm, dpspr, alpha) satisfy apply_ufunc(dask='parallelized')'s precondition - a single chunk along every input core dimension - "
+        "on every path, i.e. the call cannot fail because of how the input is chunked. PROVED (syntactic obligation from clang's AST of "
+        "specpart_wrap.c): the C entry point never releases the GIL nor calls back into Python between entry and return, so interleaved calls "
+        "from a threaded scheduler are atomic with respect to the static buffers. BOUNDED (real dask, every run): 11 operations (statistics incl. "
+        "stats with limits, smooth, interp, rotate, scale_by_hs, ptm1/3/4/5, gamma/alpha) under 6 chunkings (spectral dims split, one element "
+        "per chunk, uneven) and synchronous / threaded(4, 16) schedulers succeed and equal the in-memory result.",
+        "trusted_base": ["xarray chunk / apply_ufunc chunk contracts in engine/pyse/xrs.py", "dask blockwise semantics (assumed: chunked == in-memory is only checked on the bounded runs)"],
+        "assumptions": ["thread schedules are not enumerated", "partition wrappers use allow_rechunk (no precondition)"],
+        "technique": "ghost-state preconditions discharged on symbolic chunk counts + syntactic GIL obligation from the C AST + bounded dask runs",
+    },
 }
 
 _PENDING = "not yet brought under contract in the current build round (see DESIGN.md section 8 for the order of work)"
